@@ -24,6 +24,8 @@ import Flowjaxv.Driver.NetGen
 import Flowjaxv.Driver.Planar
 import Flowjaxv.Driver.BnafLd
 import Flowjaxv.Driver.BnafGen
+import Flowjaxv.Driver.BnafInitGen
+import Flowjaxv.Driver.PlanarInitGen
 import Flowjaxv.Driver.ElboAd
 import Flowjaxv.Driver.Flows
 import Flowjaxv.Driver.TrainGen
@@ -167,6 +169,8 @@ def dispatch (line : String) : String :=
       | "gbnafild" => gbnafild args
       | "gbnaft" => gbnaft args
       | "gbnaflj" => gbnaflj args
+      | "gbnafinit" => gbnafinit args
+      | "guplanarinit" => guplanarinit args
       | "gactlj" => gactlj args
       | "bnafild" => bnafild args
       | "bnaflj" => bnaflj args
